@@ -9,6 +9,14 @@ VK_NOTE = ("trusted: the virtual kernel model (vk/kernel.hpp, vk/ops.hpp; bound 
            "oracle; the programs are the unmodified binaries built from /repo's working tree by its own Makefile")
 DAEMON_NOTE = VK_NOTE + "; spawners are controller scripts on the daemon's pipes (their own code is covered by C09/C11/C18), time is a virtual clock"
 CHECKS = {
+ "C12": dict(engine="VK", category="fault_enumeration", design_ref="4/C12",
+             technique="stateless exhaustive exploration of the real qmail-local (parent and maildir child) under the virtual kernel: message/sender grid x every crash point (kill, machine crash with all keep/lose patterns) x every failing call; mbox results read back with a reference mboxrd reader; 2-3 concurrent mbox deliveries under every interleaving within the preemption bound with an injected write failure",
+             text="Atomicity is a statement about every crash instant of the tmp/->new/ protocol and >From quoting must be invertible for every message; every crash point, every failing call and every message of the bounded grammar is executed on the real binary, and concurrent deliveries are interleaved exhaustively within the bound.",
+             note=VK_NOTE),
+ "C13": dict(engine="VK", category="exploration", design_ref="4/C13",
+             technique="bounded-exhaustive enumeration of virtual home directories (all subsets of .qmail files x extensions, mode grid, every instruction list of length <=3 over 14 line kinds, owner files, hostile envelope addresses) through the real qmail-local (-n and real mode, real fork/exec and forwarding) under the virtual kernel, compared with a reference interpreter of dot-qmail(5)/qmail-command(8)",
+             text="Which file controls an address and what happens after a failing instruction are defined over all extensions, file sets and instruction orders; every combination of the bounded space is executed on the real binary and compared with the documented semantics.",
+             note=VK_NOTE),
  "C19": dict(engine="VK", category="model_checking", design_ref="4/C19",
              technique="explicit-state exploration of POP3 sessions on the real qmail-pop3d (visited-set on deletion marks/vanished files, every (state, command) transition executed once against an RFC 1939 reference, maildir compared after QUIT/disconnect) and exhaustive short sessions on the real qmail-popup with a recording checker, both under the virtual kernel",
              text="Deleting an unmarked message or truncating at a dot line depends on command order and message content; the reachable session state graph is explored completely for each maildir population and every transition is compared with the reference, so no sampled order is involved.",
